@@ -992,6 +992,11 @@ func (fc *FnCtx) assumeInvariant(li *loopInfo, st *State) {
 	for _, inv := range fc.c.LoopInv[li.ord] {
 		st.assume(env.evalBool(inv))
 	}
+	for i, a := range fc.c.LoopAssume[li.ord] {
+		// assumed, not proved: listed in the trusted base
+		st.assume(env.evalBool(a))
+		fc.noteTrusted(fmt.Sprintf("loop %d of %s: assumed without proof: %s", li.ord, fc.name, fc.c.LoopAssumeSrc[li.ord][i]))
+	}
 }
 
 // newLemmaCtx builds a context without code: the obligations come from the lemma's clauses only.
